@@ -66,13 +66,17 @@ def oracle_names(ctx, o, i):
 
 def oracle_hostile(ctx, ops, impl):
     """bystander intact + still answering after every hostile stream; never an undocumented error"""
-    by = None
+    by, regs = None, []
     kinds = {}
     for o, i in zip(ops, impl):
         oracle_names(ctx, o, i)
         w = o.split()
-        if len(w) > 2 and w[1] == "identify":
-            by = w[2]
+        if w and w[0] == "reset":
+            by, regs = None, []
+        if len(w) > 2 and w[1] == "identify" and by is None:
+            by, regs = w[2], []
+        if len(w) > 3 and w[1] == "register" and w[2] == by and i.startswith("OK"):
+            regs.append((e4.unhex(w[3]).decode("latin-1"), e4.unhex(w[4]).decode("latin-1") if len(w) > 4 else ""))
         if len(w) > 2 and w[1] == "stream":
             q = i.split(" | ")
             reps = q[0].split("replies=")[1].split(",") if "replies=" in q[0] else []
@@ -92,15 +96,20 @@ def oracle_hostile(ctx, ops, impl):
                 ctx.violation("error-not-fatal", "an error reply was not the last reply of the connection", o + "\n")
             ctx.count_case(w[3][:200], nontrivial=len(codes) > 1 or (len(codes) == 1 and not codes[0].startswith("E_BAD_PROTOCOL")))
             if by is not None:
-                lk = [x for x in q if x.startswith("L[t]=")]
                 nd = [x for x in q if x.startswith("N=")]
-                le = [x for x in q if x.startswith("L[e#ephemeral]=")]
-                def listed(part, chan):
-                    m = re.match(r"L\[[^\]]*\]=ch=([^;]*);pr=(.*)$", part)
-                    return bool(m) and chan in m.group(1).split(",") and \
-                        any(x.startswith(by + ":hA:") for x in m.group(2).split(","))
-                okb = (lk and listed(lk[0], "c") and le and listed(le[0], "d#ephemeral")
-                       and nd and any(x.startswith(by + ":hA:") for x in nd[0][2:].split("},")))
+                shown = []
+
+                def listed(topic, chan):
+                    part = [x for x in q if x.startswith("L[%s]=" % topic)]
+                    shown.extend(part)
+                    if not part:
+                        return True   # topic not among the queried ones
+                    m = re.match(r"L\[[^\]]*\]=ch=([^;]*);pr=(.*)$", part[0])
+                    return bool(m) and (chan == "" or chan in m.group(1).split(",")) and \
+                        any(x.startswith(by + ":") for x in m.group(2).split(","))
+                okb = all(listed(t_, c_) for (t_, c_) in regs) and \
+                    bool(nd) and any(x.startswith(by + ":") for x in nd[0][2:].split("},"))
+                lk, le = shown[:2], []
                 if not okb:
                     ctx.violation("bystander-lost:" + hashlib.sha1(w[3].encode()).hexdigest()[:10],
                                   "after a hostile connection the well-behaved producer %s is no longer listed "
